@@ -134,7 +134,7 @@ func (p *Prog) timeoutCmp(cond ssa.Value, truth bool) (isTimeout, expired, canon
 }
 
 // instrEvents: the events of one (non-call-descended) instruction.
-func (jf *joinFlow) instrEvents(in ssa.Instruction) []jev {
+func (jf *joinFlow) instrEvents(fr *Frame, in ssa.Instruction) []jev {
 	p := jf.p
 	if rs := jf.srcByInstr[in]; rs != nil {
 		return []jev{{kind: "src", in: in, rs: rs}}
@@ -142,19 +142,19 @@ func (jf *joinFlow) instrEvents(in ssa.Instruction) []jev {
 	if v, ok := p.emitInstr(in); ok {
 		return []jev{{kind: "emit", in: in, v: v}}
 	}
-	if src, ok := p.ingestOf(in); ok {
+	if src, ok := p.ingestOfFr(fr, in); ok {
 		return []jev{{kind: "ingest", in: in, v: src}}
 	}
-	if p.isReset(in) {
+	if p.isResetFr(fr, in) {
 		return []jev{{kind: "reset", in: in}}
 	}
-	if _, ok := fieldStore(in, "join"); ok {
+	if _, ok := p.fieldStoreFr(fr, in, "join"); ok {
 		return []jev{{kind: "bufwrite", in: in}}
 	}
-	if _, ok := fieldStore(in, "passAt"); ok {
+	if _, ok := p.fieldStoreFr(fr, in, "passAt"); ok {
 		return []jev{{kind: "passat", in: in}}
 	}
-	if st, ok := fieldStore(in, "unreleased"); ok {
+	if st, ok := p.fieldStoreFr(fr, in, "unreleased"); ok {
 		if c, isC := st.Val.(*ssa.Const); isC && constString(c) == "true" {
 			return []jev{{kind: "setunrel+", in: in}}
 		}
@@ -366,7 +366,7 @@ func (jf *joinFlow) run(start *ssa.Function, initMode string, h jhandler) *Flow 
 		return cur
 	}
 	fl.Instr = func(fr *Frame, st string, in ssa.Instruction) []string {
-		return applyEvents(fr, st, jf.instrEvents(in))
+		return applyEvents(fr, st, jf.instrEvents(fr, in))
 	}
 	fl.RunDefersHook = func(fr *Frame, st string, in *ssa.RunDefers) []string {
 		return applyEvents(fr, st, []jev{{kind: "rundefers", in: in}})
